@@ -265,6 +265,7 @@ func init() {
 			}
 			var res GateResult
 			json.Unmarshal(r.Res, &res)
+			attachItem(res.Viol, "gate", raw[r.Index])
 			tot.Seqs += res.Seqs
 			tot.Requests += res.Requests
 			tot.SyncOK += res.SyncOK
@@ -313,6 +314,7 @@ func init() {
 				}
 				var res sched.Result
 				json.Unmarshal(r.Res, &res)
+				attachItem(res.Viol, "cluster", raw[r.Index])
 				agg["execs"] += res.Execs
 				agg["steps"] += res.Steps
 				for _, d := range res.Digests {
